@@ -55,7 +55,7 @@ PATTERN_NAMES = [
 HARMLESS = "W zq"
 
 
-def choose_cases(ck: core.Check, gen: Dict[str, Any], rnd: random.Random, n_quick: int = 8) -> Tuple[List[Dict[str, Any]], int]:
+def choose_cases(ck: core.Check, gen: Dict[str, Any], rnd: random.Random, n_quick: int = 5) -> Tuple[List[Dict[str, Any]], int]:
     """Spend the budget: every single fragment at the end of the text, a seeded sample of the rest; every pattern (quick: a sample)."""
     cands = []
     for p in gen["payloads"]:
@@ -64,8 +64,11 @@ def choose_cases(ck: core.Check, gen: Dict[str, Any], rnd: random.Random, n_quic
             cands.append({"kind": "text", "ids": p["ids"], "layout": p["layout"], "rst": rst, "plain": core.from_cps(p["plain"]), "pattern": None, "twin_id": 0})
     cands.sort(key=lambda c: (len(c["ids"]), c["ids"], c["layout"]))
     singles_tail = [c for c in cands if len(c["ids"]) == 1 and c["layout"] == "tail"]
+    # line-breaking fragments only matter with text after them: always also in the middle of the text
+    # (break fragment, word) at the end of the text: a second paragraph / line
+    singles_mid_breaks = [c for c in cands if c["layout"] == "tail" and c["ids"] in ([16, 19], [23, 19], [24, 19])]
     singles_other = [c for c in cands if len(c["ids"]) == 1 and c["layout"] != "tail"]
-    longer = [c for c in cands if len(c["ids"]) > 1]
+    longer = [c for c in cands if len(c["ids"]) > 1 and c not in singles_mid_breaks]
     rnd.shuffle(singles_other)
     rnd.shuffle(longer)
     pats = [{"kind": "pattern", "ids": p["ids"], "layout": "pattern", "rst": HARMLESS, "plain": HARMLESS, "pattern": core.from_cps(p["re"]), "twin_id": 1} for p in gen["patterns"]]
@@ -75,9 +78,9 @@ def choose_cases(ck: core.Check, gen: Dict[str, Any], rnd: random.Random, n_quic
     rnd.shuffle(p_rest)
     if ck.quick:
         rnd.shuffle(p_single_tail)
-        chosen = singles_tail + singles_other[:3] + longer[:n_quick] + p_single_tail[:8] + p_rest[:1]
+        chosen = singles_tail + singles_mid_breaks + singles_other[:3] + longer[:n_quick] + p_single_tail[:6] + p_rest[:1]
     else:
-        chosen = singles_tail + singles_other + longer[:380] + p_single_tail + p_rest[:80]
+        chosen = singles_tail + singles_mid_breaks + singles_other + longer[:150] + p_single_tail + p_rest[:40]
     for i, c in enumerate(chosen):
         c["id"] = i + 1
     return chosen, len(cands)
@@ -132,7 +135,7 @@ def main() -> int:
     return run(core.Check("C20", "exploration"))
 
 
-def run(ck: core.Check, model_check: bool = True, n_quick: int = 8) -> int:
+def run(ck: core.Check, model_check: bool = True, n_quick: int = 5) -> int:
     rnd = random.Random(ck.seed)
     suffix = "" if ck.quick else "_thorough"
     replay = os.environ.get("VERIF_REPLAY")
@@ -189,6 +192,7 @@ def run(ck: core.Check, model_check: bool = True, n_quick: int = 8) -> int:
     res = ck.tlc("LexFileTrace", what="V: twin files and variant hunks through the lexer machines", env={"VERIF_FILES": str(files_p)}, cont=True, workers=8, jvm=JVM, timeout=2400, extra=["-difftrace"])
     parse_ok = {(p["case"], p["target"], p["path"]): p["ok"] for p in parses}
     found: List[Dict[str, Any]] = []  # violations before attribution
+    hunk_fail: List[Dict[str, Any]] = []
     seen = set()
     for v in res.violations:
         f = int(re.match(r"\s*(\d+)", res.var_of(v, "f") or "0").group(1))
@@ -219,7 +223,43 @@ def run(ck: core.Check, model_check: bool = True, n_quick: int = 8) -> int:
             else:
                 a, b = rec_fields(st), rec_fields(stv)
                 effect = "other machine state: " + ",".join(sorted(k for k in a if a.get(k) != b.get(k)))
-            found.append({"clause": "Inv_SkeletonIndependentOfPayload", "case": h["case"], "target": h["target"], "path": h["path"], "envelope": env, "effect": effect, "text": core_units_to_text(h["text"])[-400:]})
+            hunk_fail.append({"clause": "Inv_SkeletonIndependentOfPayload", "hunk": hk, "twin": h["twin"], "case": h["case"], "target": h["target"], "path": h["path"], "envelope": env, "effect": effect, "text": core_units_to_text(h["text"])[-400:]})
+    # A line diff may align repeated identical code lines of twin and variant differently; the pieces then differ although
+    # the files as wholes have the same skeleton. Where a file of a case has several hunks and one of them fails, the
+    # verdict is taken on ONE hunk spanning them all (second TLC run, only for those files).
+    by_file: Dict[Tuple[int, int], List[int]] = collections.defaultdict(list)
+    for i, h in enumerate(hunks):
+        by_file[(h["twin"], h["case"])].append(i)
+    redo = sorted({(x["twin"], x["case"]) for x in hunk_fail if len(by_file[(x["twin"], x["case"])]) > 1})
+    final_fail = [x for x in hunk_fail if len(by_file[(x["twin"], x["case"])]) == 1]
+    if redo:
+        t_index = sorted({tw for tw, _ in redo})
+        t_map = {tw: i + 1 for i, tw in enumerate(t_index)}
+        merged = []
+        for tw, case in redo:
+            hs = sorted((hunks[i] for i in by_file[(tw, case)]), key=lambda h: h["tb"])
+            ttext = twins[tw - 1]["text"]
+            text: List[int] = []
+            at = hs[0]["tb"]
+            for h in hs:
+                text += ttext[at : h["tb"]] + h["text"]
+                at = h["te"]
+            merged.append({"twin": t_map[tw], "tb": hs[0]["tb"], "te": hs[-1]["te"], "text": text, "case": case, "target": hs[0]["target"], "path": hs[0]["path"], "orig_twin": tw})
+        files2_p = ck.work / "files2.json"
+        core.write_json(files2_p, {"k": K, "twins": [{"lang": twins[tw - 1]["lang"], "text": twins[tw - 1]["text"]} for tw in t_index], "hunks": [{"twin": m["twin"], "tb": m["tb"], "te": m["te"], "text": m["text"]} for m in merged]})
+        res2 = ck.tlc("LexFileTrace", what="V: failing files again with all their hunks as one", env={"VERIF_FILES": str(files2_p)}, cont=True, workers=8, jvm=JVM, timeout=2400, extra=["-difftrace"])
+        seen2 = set()
+        for v in res2.violations:
+            if v["invariant"] != "Inv_SkeletonIndependentOfPayload":
+                continue
+            hk = int(re.match(r"\s*(\d+)", res2.var_of(v, "hk") or "0").group(1))
+            if hk in seen2:
+                continue
+            seen2.add(hk)
+            m = merged[hk - 1]
+            firsts = [x for x in hunk_fail if (x["twin"], x["case"]) == (m["orig_twin"], m["case"])]
+            final_fail.append(firsts[0])
+    found.extend({k: x[k] for k in ("clause", "case", "target", "path", "envelope", "effect", "text")} for x in final_fail)
     # V 2: C# documentation comments are XML
     docs = {}
     for d in obs["csdocs"]:
@@ -274,7 +314,10 @@ def run(ck: core.Check, model_check: bool = True, n_quick: int = 8) -> int:
         body = c["pattern"] if c["kind"] == "pattern" else c["plain"]
         table = PATTERN_NAMES if c["kind"] == "pattern" else FRAGMENT_NAMES
         hit = [("pattern: " if c["kind"] == "pattern" else "") + table[i] for i, t in enumerate(frag_text[c["kind"]]) if (x["clause"], x["target"], c["kind"], t) in single and t in body]
-        trigger = hit[0] if hit else "combination: " + " + ".join(names)
+        if len(c["ids"]) == 1:
+            trigger = names[0]  # a single fragment is its own trigger
+        else:
+            trigger = hit[0] if hit else "combination: " + " + ".join(names)
         key = {"clause": x["clause"], "target": x["target"], "trigger": trigger}
         ck.violation(
             key,
